@@ -29,7 +29,7 @@ def build(tier):
             name = f"{fn}_{i:02d}"
             extra = ", is_dir: bool" if fn == "list_name" else ""
             args = ", is_dir" if fn == "list_name" else ""
-            pre = [f"-1 <= j < {A} and -1 <= k < {A}", "j >= 0 or k < 0"] + (["k < 0"] if q and fn == "session_names" else [])
+            pre = [f"-1 <= j < {A} and -1 <= k < {A}", "j >= 0 or k < 0"] + (["k < 0"] if fn == "session_names" else [])  # the 10-command life cycle costs seconds per name: names of <= 2 characters
             src += hgen.cond(name, "j: int, k: int" + extra, pre, f"L.{fn}({i}, j, k{args})", sig="hb.KEY")
             conds += [Cond(name, "prop", T, group=fn), Cond(name + "__twin", "twin", 60, group=fn)]
     # 2b. names on which Unicode normalisation / case folding is not the identity (Mode A): PWD round trip, life cycle, LIST and MLSx
@@ -51,7 +51,7 @@ def build(tier):
             "257 quoting": f"client parser on a symbolic name of length <= {4 if q else 5} inside an RFC-959 quoted reply with three tails; real server CWD+PWD -> real client get_current_directory for every name of <= 3 characters over {L.ALPH[:A]}",
             "normalisation-sensitive names": f"{[ascii(x) for x in L.UNI]}: decomposed / precomposed pairs, singleton and compatibility decompositions, a composition exclusion, case-folding specials - PWD round trip, life cycle, LIST and MLSx name field, and the name the backend stores after MKD / STOR",
             "MLSx": f"symbolic name of length <= {n}, file or directory",
-            "LIST fallback and whole life cycle": f"names of <= 3 (life cycle: <= {2 if q else 3}) characters over the same alphabet: LIST line round trip; MKD, CWD, PWD, CDUP, STOR, MLST, RNFR/RNTO, DELE, RMD through the real dispatcher",
+            "LIST fallback and whole life cycle": f"names of <= 3 (life cycle: <= 2) characters over the same alphabet: LIST line round trip; MKD, CWD, PWD, CDUP, STOR, MLST, RNFR/RNTO, DELE, RMD through the real dispatcher",
         },
         outside=["names longer than the bounds", "encodings other than utf-8", "normalisation by a real filesystem (case folding, NFC/NFD)", "LIST lines produced by other servers"],
         explanation=(
